@@ -22,9 +22,11 @@
 #include "llvm/ADT/Twine.h"
 
 #include <atomic>
+#include <chrono>
 #include <future>
 #include <queue>
 #include <random>
+#include <thread>
 #include <unordered_map>
 #include <vector>
 
@@ -291,6 +293,13 @@ public:
         }
         killAfterTimeoutThread->join();
       }
+    }
+
+    // Wait for the detached threads that wait on lane-released processes:
+    // they report the completion and then decrement backgroundTaskCount, so
+    // this object must stay alive until the count has dropped to zero.
+    while (backgroundTaskCount.load() != 0) {
+      std::this_thread::sleep_for(std::chrono::milliseconds(1));
     }
   }
 
